@@ -1,6 +1,6 @@
 """C18 - results reflect the object's current contents, not earlier calls (E2: operation-history explorer).
 
-Every sequence of operations up to depth d over an 18-operation alphabet (accessor calls, in-place edits, watershed
+Every sequence of operations up to depth d over a 19-operation alphabet (accessor calls, in-place edits, watershed
 calls on other shapes / other objects, a reader call) is executed on freshly built objects in a freshly forked child
 (so no hidden state leaks between histories); afterwards an observation battery is compared with the same battery
 computed in a FRESH INTERPRETER on a freshly constructed object with the same contents.
@@ -25,7 +25,8 @@ FREQ2 = np.array([0.06, 0.08, 0.11, 0.15, 0.21])
 DIR1 = np.arange(8) * 45.0
 DIR2 = np.arange(8) * 22.5 + 10.0  # same size, other spacing: the bin width changes
 OPS = ["hs", "tp", "dd", "smooth", "crsd", "stats_unknown", "set_efth", "set_ds_dir", "set_da_dir", "set_freq",
-       "ws_shapeA", "ws_shapeB", "other_object", "reader", "efth_values_inplace", "coords_dir", "coords_freq", "da_values_inplace"]
+       "ws_shapeA", "ws_shapeB", "other_object", "reader", "efth_values_inplace", "coords_dir", "coords_freq", "da_values_inplace",
+       "observe_all"]
 EDITS = {"set_efth": 0, "set_ds_dir": 1, "set_da_dir": 2, "set_freq": 3, "efth_values_inplace": 0, "coords_dir": 1, "coords_freq": 3, "da_values_inplace": 4}
 
 
@@ -102,6 +103,8 @@ def apply_op(op, ds, da, env):
         o.spec.hs().values
         o.spec.partition.ptm3(parts=2).values
         o.to_dataset().spec.tp().values
+    elif op == "observe_all":
+        battery(ds, da)   # every function that is observed at the end is also exercised as an earlier operation (memoisation anywhere)
     elif op == "reader":
         from wavespectra import read_swan
         d = read_swan(os.path.join(common.repo_root(), "tests", "sample_files", "swanfile.spec"))
@@ -283,7 +286,7 @@ def replay(case):
     return vs
 
 
-REDUCED = ["hs", "smooth", "crsd", "ws_shapeA", "other_object"] + sorted(EDITS)
+REDUCED = ["observe_all", "smooth", "crsd", "ws_shapeA", "other_object"] + sorted(EDITS)
 
 
 def histories(depth, tier):
@@ -304,7 +307,7 @@ def run(rep, tier, seed, parts=None):
     common.load_wavespectra()
     os.environ["C18_BATTERY"] = "light" if tier == "quick" else "full"
     depth = 3 if tier == "quick" else 4
-    rep.rule = ("all operation sequences up to depth %d over the 18-operation alphabet %s (quick: full alphabet to depth 2, depth 3 over a reduced 13-operation "
+    rep.rule = ("all operation sequences up to depth %d over the 19-operation alphabet %s (quick: full alphabet to depth 2, depth 3 over a reduced 13-operation "
                 "alphabet with at least one edit, 17-observation battery; thorough: full alphabet to depth 3, reduced alphabet with an edit at depth 4, 28-observation battery); each history runs on freshly built objects in a freshly "
                 "forked child and its 28-observation battery is compared with a fresh interpreter's battery on a freshly constructed "
                 "object of the same contents. A state is (content, accessor/memo/global-table signature) after a history; transitions = "
